@@ -6,7 +6,7 @@
 // it traps a second thread entering while one is inside (CORRUPT) and can widen the window between two bytes.
 // What this driver shows is a SAMPLE of the real interleavings, never all of them.
 //
-// case:   <out|err> <c0,c1,...> <dist> <mode> <seed> [ord] [same] [p1..p5] [wave] [fresh] [tied] [tsan]
+// case:   <out|err> <c0,c1,...> <dist> <mode> <seed> [ord] [same] [p1..p6] [wave] [fresh] [tied] [tsan]
 //   c_t   records logged by thread t (2..32 threads)          dist  z|s|m|l|x   payload length distribution
 //         h = 20000..70000 bytes; upper case S|M|L|X|H: payloads with interior/trailing/double newlines, "\r\n",
 //         NUL, bytes >= 0x80 and format metacharacters
@@ -21,6 +21,9 @@
 //         streams are trapped and checked      p4  record with tag/severity/thread-id attributes, and_filter of a run-time
 //         severity_filter and a not_filter, tags given as const char* / std::string, filtered-out statements in between
 //         p5  odd threads own a sink object each and call its public sink() directly (no logger)
+//         p6  EVERY statement carries a tag that is distinct per thread (and alternates with the sequence number; some longer
+//         than the small-string buffer), given as const char* / string_ref; the formatter prints "[tag]" in front of the
+//         message and the tag of every emitted record is compared with its thread's (observation WRONGTAG)
 //   wave  threads with id >= n/2 are created by thread (id - n/2) half-way through its records and joined by it
 //   fresh the case runs in a forked child in which nothing has logged yet: the first calls (logger::instance(),
 //         the function-local static mutex) race
@@ -30,7 +33,7 @@
 //   in between (they must not disturb anything).
 //   In every case the CONTENT of each record is checked byte for byte (thread, seq, length, checksum, payload).
 // observation (first defect found, fixed precedence):
-//   OK c0,c1,...   [ORDER t:seq,...]  |  CORRUPT | RACE | INTERLEAVED | DUPLICATED | LOST | REORDERED
+//   OK c0,c1,...   [ORDER t:seq,...]  |  CORRUPT | RACE | INTERLEAVED | WRONGTAG | DUPLICATED | LOST | REORDERED
 #include "common.hpp"
 
 #include <nitro/log/log.hpp>
@@ -178,6 +181,23 @@ struct fmt_b
         return r.message();
     }
 };
+// p6: the tag is part of the emitted bytes
+template <typename R>
+struct fmt_tag_a
+{
+    std::string format(R& r)
+    {
+        return "[" + r.tag() + "]" + r.message();
+    }
+};
+template <typename R>
+struct fmt_tag_b
+{
+    std::string format(R& r)
+    {
+        return "[" + r.tag() + "]" + r.message();
+    }
+};
 template <typename R>
 using filt = nl::filter::null_filter<R>;
 // run-time severity threshold (set to debug in main: trace statements are dropped) AND NOT(threshold no. 1, left at
@@ -201,6 +221,11 @@ using out_rich_a = nl::logger<rich_t, fmt_a, SO, rich_filt>;
 using out_rich_b = nl::logger<rich_t, fmt_b, nl::sink::sequence<SO>, rich_filt>;
 using err_rich_a = nl::logger<rich_t, fmt_a, SE, rich_filt>;
 using err_rich_b = nl::logger<rich_t, fmt_b, nl::sink::sequence<SE>, rich_filt>;
+
+using out_tag_a = nl::logger<rich_t, fmt_tag_a, SO, rich_filt>;
+using out_tag_b = nl::logger<rich_t, fmt_tag_b, nl::sink::sequence<SO>, rich_filt>;
+using err_tag_a = nl::logger<rich_t, fmt_tag_a, SE, rich_filt>;
+using err_tag_b = nl::logger<rich_t, fmt_tag_b, nl::sink::sequence<SE>, rich_filt>;
 
 // ------------------------------------------------------------------ records
 struct lcg
@@ -350,6 +375,45 @@ void log_one(unsigned t, unsigned seq, const std::string& p, bool rich)
     }
 }
 
+// p6: the tag of thread t's record no. seq (no ']' in it)
+std::string thread_tag(unsigned t, unsigned seq)
+{
+    std::string s = "T" + std::to_string(t);
+    if (seq % 2) s += "-odd";
+    if (t % 3 == 1) s += "-a-suffix-longer-than-the-small-string-buffer";
+    return s;
+}
+
+template <typename L>
+void log_tagged(unsigned t, unsigned seq, const std::string& p)
+{
+    const std::string tag = thread_tag(t, seq);
+    const std::string h = header(t, seq, p);
+    if (seq % 3 == 0) L::trace(tag.c_str()) << "this statement is filtered out at run time" << p;
+    switch (seq % 4)
+    {
+    case 0: L::info(tag.c_str()) << h << p << ">\n"; break;
+    case 1:
+    {
+        auto s = L::warn(nitro::lang::string_ref(tag));
+        s << h;
+        s << p << '>' << "\n";
+        break;
+    }
+    case 2: L::error(nitro::lang::string_ref(tag)) << h << [&p]() { return p; } << ">\n"; break;
+    default:
+        try
+        {
+            throw std::runtime_error("handler");
+        }
+        catch (const std::exception&)
+        {
+            L::fatal(tag.c_str()) << (h + p + ">\n");
+        }
+        break;
+    }
+}
+
 template <typename L>
 void log_same(unsigned t, unsigned seq, const std::string& p)
 {
@@ -362,7 +426,7 @@ struct plan
     std::vector<unsigned> counts;
     unsigned seed;
     char dist;
-    bool same, wave, rich, direct;
+    bool same, wave, rich, direct, tagged = false;
     std::atomic<int> ready{ 0 };
     std::atomic<bool> go{ false };
 };
@@ -386,7 +450,12 @@ void worker(plan* pl, unsigned t, bool wait_for_go)
     for (unsigned s = 0; s < count; s++)
     {
         if (spawns && s == count / 2) child = std::thread(worker<LA, LB, DirectSink>, pl, child_id, false);
-        if (pl->same)
+        if (pl->tagged)
+        {
+            if (t % 2 == 0) log_tagged<LA>(t, s, ps[s]);
+            else log_tagged<LB>(t, s, ps[s]);
+        }
+        else if (pl->same)
             log_same<LA>(t, s, ps[s]);
         else if (pl->direct && t % 2 == 1)
             own.sink(static_cast<nl::severity_level>(s % 6), header(t, s, ps[s]) + ps[s] + ">\n");
@@ -420,6 +489,15 @@ std::string judge(const std::string& b, const plan& pl, unsigned mult, std::vect
     while (i < b.size())
     {
         unsigned long t, s, len, ck;
+        std::string got_tag;
+        if (pl.tagged)
+        {
+            if (b[i] != '[') return "INTERLEAVED";
+            std::size_t e = b.find(']', i);
+            if (e == std::string::npos || e + 1 >= b.size()) return "INTERLEAVED";
+            got_tag = b.substr(i + 1, e - i - 1);
+            i = e + 1;
+        }
         if (b[i++] != '<') return "INTERLEAVED";
         if (!read_num(b, i, ',', t) || !read_num(b, i, ',', s) || !read_num(b, i, ',', len) || !read_num(b, i, ':', ck))
             return "INTERLEAVED";
@@ -429,6 +507,7 @@ std::string judge(const std::string& b, const plan& pl, unsigned mult, std::vect
         if (b[i] != '>' || b[i + 1] != '\n') return "INTERLEAVED";
         i += 2;
         if (p != payload(pl.seed, t, s, pl.dist) || ck != checksum(p)) return "INTERLEAVED";
+        if (pl.tagged && got_tag != thread_tag(t, s)) return "WRONGTAG";
         seen[t].push_back(s);
         order.emplace_back(t, s);
     }
@@ -466,6 +545,7 @@ worker_fn pick(bool to_out, int profile)
     case 3: return worker<pair_of<sequence<SO, SE>>::a, pair_of<sequence<SE, SO>>::b, Null>;
     case 4: return to_out ? worker<out_rich_a, out_rich_b, Null> : worker<err_rich_a, err_rich_b, Null>;
     case 5: return to_out ? worker<out_a, out_b, SO> : worker<err_a, err_b, SE>;
+    case 6: return to_out ? worker<out_tag_a, out_tag_b, Null> : worker<err_tag_a, err_tag_b, Null>;
     default: return to_out ? worker<out_a, out_b, Null> : worker<err_a, err_b, Null>;
     }
 }
@@ -484,6 +564,7 @@ std::string run_threads(const std::vector<std::string>& w, bool want_order, bool
     pl.wave = wave;
     pl.rich = profile == 4;
     pl.direct = profile == 5;
+    pl.tagged = profile == 6;
     unsigned mult = profile == 2 ? 2 : 1;
 
     std::size_t total = 0;
@@ -491,7 +572,7 @@ std::string run_threads(const std::vector<std::string>& w, bool want_order, bool
         for (unsigned s = 0; s < pl.counts[t]; s++)
         {
             std::string p = payload(pl.seed, t, s, pl.dist);
-            total += header(t, s, p).size() + p.size() + 2;
+            total += header(t, s, p).size() + p.size() + 2 + (pl.tagged ? thread_tag(t, s).size() + 2 : 0);
         }
 
     // the stream(s) this sink writes to get the trapping buffer; formatting state a user may have left on the stream
@@ -573,7 +654,7 @@ std::string run_case(const std::vector<std::string>& w0)
         else if (f == "wave") wave = true;
         else if (f == "fresh") fresh = true;
         else if (f == "tied") tied = true;
-        else if (f.size() == 2 && f[0] == 'p' && f[1] >= '1' && f[1] <= '5') profile = f[1] - '0';
+        else if (f.size() == 2 && f[0] == 'p' && f[1] >= '1' && f[1] <= '6') profile = f[1] - '0';
         else if (f != "tsan") return "BADCASE"; // `tsan` only routes the case to the ThreadSanitizer build (props/C09.py)
         w.pop_back();
     }
